@@ -115,7 +115,7 @@ def netlists(
                 variant = draw(st.sampled_from(['same', 'rotate', 'repeat_operand', 'drop_operand']))
                 if variant == 'rotate' and len(ops) >= 2:
                     ops = ops[1:] + ops[:1]
-                elif variant == 'repeat_operand' and src[1] in NARY and len(ops) < max(max_arity, 3):
+                elif variant == 'repeat_operand' and src[1] in NARY and len(ops) < max_arity:
                     # near duplicate: same operand set, one operand repeated (matters for XOR/NXOR parity)
                     ops = ops + [ops[draw(st.integers(0, len(ops) - 1))]]
                 elif variant == 'drop_operand' and src[1] in NARY and len(ops) >= 3:
